@@ -83,6 +83,11 @@ LAWS = [
     ("k * x if x > 2.5 or y > 2.5 or x == y else k", "refuse"),
     ("k * x if x > 0.75 and (y > 1.75 or x > 2.5) else k", "refuse"),
     ("math.atan2(x, y)", "refuse"),
+    ("math.log(x + 1.0, 10) * k", "refuse"),
+    ("k * x * 3000000000", "must"),
+    ("k * x / 4000000000.0", "must"),
+    ("k * x * 1e-12", "must"),
+    ("k * x * True", "refuse"),
 ]
 BODIES = [  # multi-statement bodies: outside the single-expression subset
     ("t = k * x\n    return t + y", "refuse"),
@@ -99,7 +104,7 @@ NAMES = {
     "keyword": {"x": "class", "k": "lambda", "v1": "def", "d": "in"},
 }
 COEFS = ["one", "two", "half", "neghalf", "pname", "pcomp", "ncomp"]
-DERIVED = ["none", "dpar", "dvar"]
+DERIVED = ["none", "dpar", "dvar", "coef2"]
 IAS = ["none", "var", "par"]
 STATES = [[0.5, 2.0], [2.0, 0.5], [1.0, 1.0], [3.0, 1.5]]
 
@@ -198,6 +203,9 @@ def build_model(c):
     elif c["derived"] == "dvar":
         m.add_derived(D, L.mul2, args=[X, K])
         m.add_reaction("v2", L.ma1, args=[D, K], stoichiometry={"y": -1})
+    elif c["derived"] == "coef2":
+        # a second reaction with a computed coefficient on the same species
+        m.add_reaction("v2", L.ma1, args=["y", K], stoichiometry={"y": Derived(fn=L.neg_half, args=["p"]), X: Derived(fn=L.half_plus, args=["p"])})
     else:
         m.add_reaction("v2", L.ma1, args=["y", K], stoichiometry={"y": -1})
     return m, nm
